@@ -41,6 +41,8 @@ def project_list(tier):
     out.append(("resource:t", ("f_fail", {"kind": "resource"}), {"njob": 2, "resources": "cpu:2", "targets": ["s.txt"]}, False))
     out.append(("fail:kg:t", ("f_fail", {"kind": "fail"}), {"njob": 2, "keep_going": True, "targets": ["d.txt"]}, False))
     out.append(("defer_forever:t", ("f_fail", {"kind": "defer_forever"}), {"njob": 2, "targets": ["o.txt"]}, False))
+    out.append(("many_missing", ("f_fail", {"kind": "many_missing"}), {"njob": 2}, False))
+    out.append(("many_resources", ("f_fail", {"kind": "many_resources"}), {"njob": 2, "resources": "cpu:1"}, False))
     out.append(("chain:drain", ("f_chain", {}), {"njob": 2}, True))
     out.append(("fail:drain", ("f_fail", {"kind": "fail"}), {"njob": 2, "keep_going": True}, True))
     out.append(("glob_product", ("f_twoplans", {"kind": "glob_vs_output_conflict"}), {"njob": 1}, False))
@@ -116,6 +118,7 @@ def _run(spec, prefix):
     cfg["wired_hook"] = wired
     obs = session(w, cfg, prefix)
     obs.pending = summary
+    obs.flat = {"many_missing": "inputs", "many_resources": "resources"}.get(spec["name"].split(":")[0])
     obs.targets = spec["cfg"].get("targets", ()), spec["cfg"].get("target_dirs", ())
     w.destroy()
     return obs
@@ -201,6 +204,23 @@ def analyse(obs):
         for row in summ.resources:
             if row.name in avail and avail[row.name] >= row.units_needed:
                 out.append(("summary-resource", f"displayed resource {row.name} is sufficient"))
+        # flat projects (every pending step has its own single cause): the rows shown plus the
+        # "... and N more" line account for every cause, and the steps behind them for every step
+        flat = getattr(obs, "flat", None)
+        if flat == "inputs":
+            if len(summ.inputs) + summ.ninputs_hidden != len(blocked_inputs):
+                out.append(("summary-hidden-inputs", f"{len(summ.inputs)} rows + {summ.ninputs_hidden} more "
+                            f"!= {len(blocked_inputs)} dead-end inputs"))
+            if sum(r.nblocked for r in summ.inputs) + summ.ninputs_hidden_blocked != len(pending):
+                out.append(("summary-hidden-steps", f"steps behind the rows and the 'more' line do not add up "
+                            f"to {len(pending)} pending steps"))
+        if flat == "resources":
+            if len(summ.resources) + summ.nresources_hidden != len(pending):
+                out.append(("summary-hidden-resources", f"{len(summ.resources)} rows + {summ.nresources_hidden} "
+                            f"more != {len(pending)} unsatisfiable resources"))
+            if sum(r.nblocked for r in summ.resources) + summ.nresources_hidden_blocked != len(pending):
+                out.append(("summary-hidden-steps", f"steps behind the resource rows and the 'more' line do not "
+                            f"add up to {len(pending)} pending steps"))
     elif summ is None and not obs.draining and pending:
         out.append(("summary-missing", f"pending steps {pending} but no summary was computed"))
     return out
